@@ -244,6 +244,16 @@ ToFile(dst, bytes) ==
                    IF i > dst.pos /\ i <= dst.pos + Len(bytes) THEN bytes[i - dst.pos] ELSE dst.content[i]],
    pos |-> dst.pos + Len(bytes)]
 
+\* The operating system may transfer fewer bytes than asked for in one call (copy_file_range, write, sendfile):
+\* a writer that loops hands over the bytes in pieces of at most k, each piece at the position where the
+\* previous one ended.  k = 0: everything in one call.  The result must not depend on k (ShortTransferOK).
+KernelChunks == {0, 1, 3}
+RECURSIVE ToFileChunked(_, _, _)
+ToFileChunked(dst, bytes, k) ==
+  IF k = 0 \/ Len(bytes) <= k THEN ToFile(dst, bytes)
+  ELSE ToFileChunked(ToFile(dst, SubSeq(bytes, 1, k)), SubSeq(bytes, k + 1, Len(bytes)), k)
+ShortTransferOK(dst, bytes) == \A k \in KernelChunks : ToFileChunked(dst, bytes, k) = ToFile(dst, bytes)
+
 \* destination kinds: new file at 0; new file after 3 bytes were written; existing file of 16 bytes opened r+b and
 \* positioned at 3; existing file of 5 bytes opened for append (position = end); BytesIO empty; BytesIO with 16 bytes at 3
 DestKinds == {"w0", "wk", "rpk", "ab", "bio0", "biok"}
